@@ -14,8 +14,8 @@ Tips14 == {3, 10, 12}
 Par15 == <<0,1,2,3,4,5,6,7,8,9,10,11,11,13,14>>
 Tips15 == {1}
 NoFix == {}
-CodeFix == {"stale", "unknownpoll"}   \* repaired in the code (fix: commits)
-AllFix == {"inflight", "recheck", "stale", "blockinv", "unknownpoll"}
+CodeFix == {"stale", "unknownpoll", "unknownkeeps"}   \* repaired in the code (fix: commits)
+AllFix == {"inflight", "recheck", "stale", "blockinv", "unknownpoll", "unknownkeeps"}
 FixNoInv == {"inflight", "recheck", "stale", "unknownpoll"}
 FixNoInvNoStale == {"inflight", "recheck", "unknownpoll"}
 Unb == 0 - 1
